@@ -59,6 +59,14 @@ func init() {
 					sh = append(sh, Shard{Kind: "orders", Arg: fmt.Sprintf("%d,%d", o, ord), Tier: tier, Seed: seed})
 				}
 			}
+			// long and structured histories, one process each (c09hist.go)
+			sh = append(sh, Shard{Kind: "longhist", Tier: tier, Seed: seed}, Shard{Kind: "histref", Tier: tier, Seed: seed}, Shard{Kind: "junk", Arg: "ref", Tier: tier, Seed: seed}, Shard{Kind: "junk", Arg: "junk", Tier: tier, Seed: seed})
+			for i := 0; i < 4; i++ {
+				sh = append(sh, Shard{Kind: "jumps", Arg: fmt.Sprint(i), Tier: tier, Seed: seed})
+			}
+			for i := range firstUses() {
+				sh = append(sh, Shard{Kind: "firstuse", Arg: fmt.Sprint(i), Tier: tier, Seed: seed})
+			}
 			for part := 0; part < 4; part++ {
 				sh = append(sh, Shard{Kind: "race", Arg: fmt.Sprintf("%d/4", part), Tier: tier, Seed: seed})
 			}
@@ -127,6 +135,12 @@ func exportedTablesHash() string {
 		sb.WriteByte('\n')
 	}
 	return hashStr(sb.String())
+}
+
+// exportedTablesHashNow: the exported tables plus the holiday names/records, as they are at this moment.
+func exportedTablesHashNow() string {
+	n, d := HolidayUtil.VerifState()
+	return hashStr(exportedTablesHash() + "|" + strings.Join(n, ",") + "|" + d)
 }
 
 func c09Lock() *vsync.Mutex { return calendar.VerifLock().(*vsync.Mutex) }
@@ -244,6 +258,16 @@ func runC09(w *W) {
 		c09Orders(w)
 	case "race":
 		c09Race(w)
+	case "longhist":
+		c09LongHist(w)
+	case "histref":
+		c09HistRef(w)
+	case "jumps":
+		c09Jumps(w)
+	case "firstuse":
+		c09FirstUse(w)
+	case "junk":
+		c09Junk(w)
 	}
 }
 
@@ -1012,8 +1036,12 @@ func c09Purity(w *W) {
 				hs0 := hiddenState()
 				mname := v.Type().Method(i).Name
 				p0 := t.points
+				tb0 := exportedTablesHashNow()
 				callOne(v, i, mname)
 				after := deepSnap(v, 4, map[uintptr]bool{})
+				if tb1 := exportedTablesHashNow(); tb1 != tb0 {
+					w.Viol("C09:accessor-writes-package-tables:"+name+"."+mname, fmt.Sprintf("read-only accessor %s.%s changed an exported package-level table or the holiday record set: every later call in the process reads the changed table", name, mname), name+"."+mname)
+				}
 				w.R.Transitions++
 				w.R.Traces++
 				w.R.Evals++
